@@ -211,14 +211,22 @@ func probes(r *hk.Run) {
 func lateContent(r *hk.Run) {
 	all := &Cons{Camli: "permanode"}
 	tagged := &Cons{Pn: &PermC{Attr: "tag", Value: "x"}}
-	for i, ftime := range []int64{1300000000, 1500000000} {
+	for i, ftime := range []int64{1500000000, 1300000000} {
 		c := newCase(r, fmt.Sprintf("fixed late content file %d", i+1))
 		b := c.b
 		p1, p2 := b.PN("late1"), b.PN("late2")
 		file, _ := PlanFile("a.txt", "hello world", ftime)
-		b.Claim(p1, "add", "tag", "x", 1400000010)
-		b.Claim(p1, "set", "camliContent", file, 1400000011+int64(i)*20) // p1 before p2 in world 1, after it in world 2
-		b.Claim(p2, "add", "tag", "x", 1400000020)
+		if i == 0 {
+			// by claims p2 is the newer one; the file's time (2017) puts p1 first
+			b.Claim(p1, "add", "tag", "x", 1400000010)
+			b.Claim(p1, "set", "camliContent", file, 1400000011)
+			b.Claim(p2, "add", "tag", "x", 1400000020)
+		} else {
+			// by claims p1 is the newer one; the file's time (2011) puts it last
+			b.Claim(p2, "add", "tag", "x", 1400000010)
+			b.Claim(p1, "add", "tag", "x", 1400000020)
+			b.Claim(p1, "set", "camliContent", file, 1400000021)
+		}
 		b.SyncCTimes()
 		ask := func(phase string) {
 			b.Raw("times")
